@@ -844,6 +844,11 @@ def h_int_add_ref(ex, st, frame, t, nf, args, dty):
     return [(Sym(a.t + b.t, a.ty), z3.Not(ovf)), (("panic", "attempt to add with overflow"), ovf)]
 
 
+def h_future_havoc(ex, st, frame, t, nf, args, dty):
+    """a library future whose outcome is arbitrary (semaphore acquisition, ...): awaited like any opaque callee"""
+    return [(FutureV(nf, args, None, "havoc"), None)]
+
+
 def h_result_and(ex, st, frame, t, nf, args, dty):
     """Result::and(self, res): res if self is Ok, else self's error"""
     a, b = args[0], args[1]
@@ -1793,6 +1798,7 @@ STD_SUMMARIES = [
     (r"^<(std::result::)?Result as (anyhow::)?Context<.*>>::(with_context|context)$", h_err_map_keep),
     (r"^(std::option::)?Option::ok_or_else$", h_ok_or_else),
     (r"^(std::result::)?Result(::<.*>)?::and$", h_result_and),
+    (r"^(tokio::sync::)?Semaphore::(acquire|acquire_many|acquire_owned)$", h_future_havoc),
     (r"^<&?(u8|u16|u32|u64|usize) as (std::ops::)?Add<&?(u8|u16|u32|u64|usize)>>::add$", h_int_add_ref),
     (r"^(futures::future::|futures_util::future::)?maybe_done$", h_maybe_done),
     (r"^(futures::future::|futures_util::future::)?poll_fn$", h_poll_fn),
